@@ -105,7 +105,16 @@ static int chooseNext(int me) {
     if (p < expected && slots[p].reg && !slots[p].fin) return p;
   }
   long hard = 400L * nl + 4000;
-  if (steps - lastProgress > hard) abortRun("deadlock");
+  long quiet = steps - lastProgress;
+  if (quiet > hard) abortRun("deadlock");
+  if (nc > 0 && quiet > 150) {
+    // nobody has written anything for a while (threads polling with loads only): turn strictly
+    // fairly among the runnable threads so that whoever can make progress does; the hard limit
+    // is therefore only reached when no thread can
+    int start = 0;
+    for (int i = 0; i < nc; ++i) if (cands[i] == me) start = i + 1;
+    return cands[start % nc];
+  }
   if (nc == 0) {
     // every live thread spins without any write in between: keep turning fairly; the hard limit decides
     int start = 0;
@@ -156,6 +165,9 @@ void point(const void* addr, int kind, int mo) {
   if (kind == K_SPIN) {
     if (s.spinEpoch != epoch) { s.spinEpoch = epoch; s.spins = 0; }
     s.spins++;
+    // PCT: a spin hint is a yield -- the polling thread drops below everybody else, otherwise a
+    // high-priority thread polling for work would starve the thread that has the work
+    if (cfg.pct_depth > 0) s.prio = --lowPrio;
   } else if (kind != K_LOAD && kind != K_LOCK) {
     s.spins = 0; // loads (and failed lock attempts) are what a spin loop consists of
   }
